@@ -28,6 +28,11 @@ fn gen(case_seed: u64, _case: u64, tier: Tier) -> Plan {
 		with_vlog(&mut rng, &mut opts);
 		opts.vlog_checksum_full = true; // the property covers vlog files with full verification
 	}
+	if opts.versioning {
+		// versioning brings a value log with it: it is damaged like the other files, so
+		// full verification has to be on for the property to apply to it
+		opts.vlog_checksum_full = true;
+	}
 	opts.absolute_consistency = true; // detected commit-log damage must fail the open
 	let nkeys = rng.range(4, 14) as u16;
 	let keys = key_universe(&mut rng, nkeys as usize, false);
